@@ -13,7 +13,7 @@ from common import clist, cstr, cz, cq, cbool
 from gen import resfile as rf
 import impl_model as im
 
-THEOREMS = ['C03_atoms_correct', 'C03_qpeaks_only_after_hklf', 'C03_reset_facts', 'C03_atoms_in_file_order', 'C03_atoms_count', 'C03_ctx_example']
+THEOREMS = ['C03_include_file_ends_at_END', 'C03_atoms_correct', 'C03_qpeaks_only_after_hklf', 'C03_reset_facts', 'C03_atoms_in_file_order', 'C03_atoms_count', 'C03_ctx_example']
 IMPORTS = 'From SX Require Import Base.Prelude Base.Str Model.Ctx Spec.CtxSpec.\nFrom Coq Require Import QArith.\nOpen Scope Q_scope.\n'
 
 
